@@ -33,7 +33,7 @@ def cases(tier, seed):
             for fit in ('point_fit', 'best_fit'):
                 for cost in ('rmse', 'rss'):
                     out.append(dict(fn='lmethod', n=n, xs=xs, fit=fit, cost=cost))
-    for ci in ([3, 1] if q else [3, 1, 8, 11]):
+    for ci in ([3, 1, 8, 11] if q else [3, 1, 8, 11, 9]):
         for pos in ([[2], [4]] if q else [[1], [2], [3], [4]]):
             out.append(dict(fn='dfdt_slice', curve=ci, pos=pos, int_range=[-3, 8], nra_at_decide=False))
     for it in ('original', 'adjusted'):
